@@ -265,8 +265,14 @@ pub fn run(out: &RunOut, p: &str, tol: u128) -> MonOut {
                         pending = None;
                         pending_unknown = true;
                     } else if let Some(t) = sys_target.clone() {
-                        pending = Some(Pending { finish_wall: fw, target: t.or(Some("UNKNOWN".into())), life: l.life, uncertain: !reboot_q, reports: 0 });
-                        pending_unknown = false;
+                        if reboot_q {
+                            pending = Some(Pending { finish_wall: fw, target: t.or(Some("UNKNOWN".into())), life: l.life, uncertain: false, reports: 0 });
+                            pending_unknown = false;
+                        } else {
+                            // cut between the install's end and the reboot question: whether this
+                            // install's record or the previous one is on storage is not determined
+                            pending_unknown = true;
+                        }
                     } else {
                         pending_unknown = true;
                         // system app not part of this update: which version string is on record is not
